@@ -435,6 +435,11 @@ func main() {
 		fmt.Fprintln(os.Stderr, "c08 extract:", err)
 		os.Exit(1)
 	}
+	axis, naxis, err := axisFile(*repo)
+	if err != nil {
+		fmt.Fprintln(os.Stderr, "c08 extract:", err)
+		os.Exit(1)
+	}
 	if *out == "" {
 		fmt.Print(b.String())
 		fmt.Print(route)
@@ -442,7 +447,7 @@ func main() {
 	}
 	os.MkdirAll(*out, 0o755)
 	p := filepath.Join(*out, "GoProj.lean")
-	for _, f := range []struct{ path, text string }{{p, b.String()}, {filepath.Join(*out, "GoRoute.lean"), route}} {
+	for _, f := range []struct{ path, text string }{{p, b.String()}, {filepath.Join(*out, "GoRoute.lean"), route}, {filepath.Join(*out, "GoAxis.lean"), axis}} {
 		old, _ := os.ReadFile(f.path)
 		if string(old) != f.text {
 			if err := os.WriteFile(f.path, []byte(f.text), 0o644); err != nil {
@@ -451,5 +456,5 @@ func main() {
 			}
 		}
 	}
-	fmt.Printf("c08 extract: %d definitions -> %s, %d (transform.go) -> GoRoute.lean\n", total, p, nroute)
+	fmt.Printf("c08 extract: %d definitions -> %s, %d (transform.go) -> GoRoute.lean, %d (adjust_axis.go) -> GoAxis.lean\n", total, p, nroute, naxis)
 }
